@@ -19,21 +19,30 @@
       [getOrderedVictimsQueue] ([reclaim_filter]); actions/consolidation/
       consolidation.go [buildPreemptibleFilterFunc] ([consolidation_filter]),
       [allPodsReallocated] ([all_pods_reallocated]).
-    - pkg/scheduler/framework/statement.go [Evict], [Pipeline] (incl. the
-      "already on this node -> un-evict" and "same node, other GPU group" branches),
-      [Unevict] = undo of the earliest valid evict operation, [Commit] (one Cache
-      call per valid operation, in order); actions/common/solvers/by_pod_solver.go
+    - pkg/scheduler/framework/statement.go [Evict] (as repaired by 83a0ca3 +
+      bce7109: a pod that is already Releasing in the session is left alone;
+      [stmt_evict_gen stale] with a non-empty [stale] is the code before bce7109),
+      [Pipeline] (incl. the "already on this node -> un-evict" and "same
+      node, other GPU group" branches), [Unevict] = undo of the earliest valid evict
+      operation, [Commit] with [commitEvict] / [commitPipeline] / [commitAllocate]
+      ([commit_run]: one Cache call per valid operation, in order, under a failure
+      oracle for the Evict and Bind calls: a refused eviction is logged,
+      Statement.unevict is called with the pod's status at commit time (the pod
+      stays Releasing / nominated in the session) and the loop goes on; a refused
+      bind cleans the allocation up, clears the operations and returns);
+      actions/common/solvers/by_pod_solver.go
       [solve] / [handleScenarioSolution] and job_solver.go [Solve] ([run_scenario]):
       evict the recorded victims and the potential victims of the node under test,
       simulate, validate, and commit or discard the whole statement.
     - pkg/common/podgroup/preemptible.go [CalculatePreemptibility] ([calc_preemptible]).
 
     Oracles (any value is covered by the theorems): which scenario is tried
-    ([scenario]: recorded / potential / chosen victims), the placements the
-    simulation found ([sim]; only successful nominations are listed: attempts that
+    ([scenario]: recorded / potential / chosen victims), the placements
+    the simulation found ([sim]; only successful nominations are listed: attempts that
     fail are rolled back by the statement, which restores the state - property
     C13), the verdict of the proportion plugin's reclaim validator ([sc_other_ok]),
-    the current time ([ve_now]).
+    the current time ([ve_now]), which Cache.Evict / Cache.Bind calls of a commit
+    fail ([faults]).
 
     Left out: the caches of the plugin (protection / duration per job / queue pair:
     same value as the uncached computation), node existence checks (every node a
@@ -400,9 +409,16 @@ Definition all_pods_reallocated (s : sstate) (vics : list positive) : bool :=
 
 (** * Statement *)
 
+(** operations of a statement.  [SEvict]: what [evictOperation] keeps for the
+    undo (previous status, GPU groups, node) and whether the operation is still
+    valid (not undone).  [SAlloc] operations are built by the allocate action
+    only (its simulation is not modelled here: the three evicting actions run
+    [AllocateJob] with isPipelineOnly = true); [commit_run] covers them because
+    [Commit] does. *)
 Inductive sop :=
-| SEvict (t : positive) (prev : status) (prev_groups : list positive) (valid : bool)
-| SPipe (t n : positive) (gs : list positive).
+| SEvict (t : positive) (prev : status) (prev_groups : list positive) (prev_node : positive) (valid : bool)
+| SPipe (t n : positive) (gs : list positive)
+| SAlloc (t n : positive) (gs : list positive).
 
 Fixpoint upd_first (t : positive) (f : vtask -> vtask) (l : list vtask) : list vtask :=
   match l with
@@ -415,6 +431,8 @@ Definition set_status_groups (st : status) (gs : list positive) (x : vtask) : vt
   mkVT (vt_id x) (vt_job x) (vt_pset x) st (vt_node x) gs (vt_shared x).
 Definition set_piped (n : positive) (gs : list positive) (x : vtask) : vtask :=
   mkVT (vt_id x) (vt_job x) (vt_pset x) Pipelined (Some n) gs (vt_shared x).
+Definition set_unallocated (x : vtask) : vtask :=
+  mkVT (vt_id x) (vt_job x) (vt_pset x) Pending None (vt_groups x) (vt_shared x).
 Definition with_tasks (s : sstate) (ts : list vtask) : sstate := mkSS (ss_jobs s) ts (ss_entries s).
 
 Fixpoint entry_of (es : list (positive * positive * list positive)) (t n : positive) : option (list positive) :=
@@ -427,6 +445,8 @@ Fixpoint entry_set (es : list (positive * positive * list positive)) (t n : posi
   | [] => [(t, n, gs)]
   | (t', n', gs') :: r => if Pos.eqb t' t && Pos.eqb n' n then (t, n, gs) :: r else (t', n', gs') :: entry_set r t n gs
   end.
+Definition entry_del (es : list (positive * positive * list positive)) (t n : positive) :=
+  filter (fun e => negb (Pos.eqb (fst (fst e)) t && Pos.eqb (snd (fst e)) n)) es.
 
 Fixpoint pos_list_eqb (a b : list positive) : bool :=
   match a, b with
@@ -435,27 +455,41 @@ Fixpoint pos_list_eqb (a b : list positive) : bool :=
   | _, _ => false
   end.
 
-(** Statement.Evict: the pod's job and node must be known; status -> Releasing *)
-Definition stmt_evict (s : sstate) (ops : list sop) (t : positive) : option (sstate * list sop) :=
+(** Statement.Evict: the pod's job and node must be known; a pod that is already
+    Releasing IN THE SESSION is left alone (no operation, no second eviction);
+    otherwise status -> Releasing.  This is the guard as amended by bce7109: it
+    looks the pod up in the session's own job ([sessionStatus]).  (It also fires
+    when the object it is handed says Releasing; the by-node scenario hands out
+    copies made by PodGroupInfo.CloneWithTasks between statements, and a pod that
+    is Releasing between statements stays Releasing for the rest of the cycle, so
+    that disjunct adds nothing.)
+    [stale] describes the code BEFORE that amendment and is [[]] for the code as it
+    is: repair 83a0ca3 tested only the Status of the object it was handed, which for
+    such a copy is the status at copy time; for the pods in [stale] - the ones that
+    reach Evict as a stale copy - the guard did not fire.  (Before 83a0ca3 there was
+    no guard: every pod stale.) *)
+Definition stmt_evict_gen (stale : list positive) (s : sstate) (ops : list sop) (t : positive) : option (sstate * list sop) :=
   match get_task (ss_tasks s) t with
   | None => None
   | Some tk =>
       match find_job (ss_jobs s) (vt_job tk), vt_node tk with
-      | Some _, Some _ =>
-          Some (with_tasks s (upd_first t (set_status Releasing) (ss_tasks s)),
-                ops ++ [SEvict t (vt_status tk) (vt_groups tk) true])
+      | Some _, Some n =>
+          if negb (mem_pos t stale) && status_eqb (vt_status tk) Releasing then Some (s, ops)
+          else Some (with_tasks s (upd_first t (set_status Releasing) (ss_tasks s)),
+                     ops ++ [SEvict t (vt_status tk) (vt_groups tk) n true])
       | _, _ => None
       end
   end.
+Definition stmt_evict := stmt_evict_gen [].
 
 (** undoEarliestValidOperation(task, evict): the previous status and groups of that operation *)
 Fixpoint unevict_first (t : positive) (ops : list sop) : option (list sop * status * list positive) :=
   match ops with
   | [] => None
-  | SEvict t' prev pg true :: r =>
-      if Pos.eqb t' t then Some (SEvict t' prev pg false :: r, prev, pg)
+  | SEvict t' prev pg pn true :: r =>
+      if Pos.eqb t' t then Some (SEvict t' prev pg pn false :: r, prev, pg)
       else match unevict_first t r with
-           | Some (r', p, g) => Some (SEvict t' prev pg true :: r', p, g)
+           | Some (r', p, g) => Some (SEvict t' prev pg pn true :: r', p, g)
            | None => None
            end
   | o :: r => match unevict_first t r with
@@ -509,22 +543,93 @@ Fixpoint fold_opt {A B} (f : A -> B -> option A) (a : A) (l : list B) : option A
               end
   end.
 
-Definition evict_all (s : sstate) (ops : list sop) (ts : list positive) : option (sstate * list sop) :=
-  fold_opt (fun so t => stmt_evict (fst so) (snd so) t) (s, ops) ts.
+Definition evict_all_gen (stale : list positive) (s : sstate) (ops : list sop) (ts : list positive) : option (sstate * list sop) :=
+  fold_opt (fun so t => stmt_evict_gen stale (fst so) (snd so) t) (s, ops) ts.
+Definition evict_all := evict_all_gen [].
 Definition pipeline_all (s : sstate) (ops : list sop) (sim : list (positive * positive * list positive))
   : option (sstate * list sop) :=
   fold_opt (fun so r => stmt_pipeline (fst so) (snd so) r) (s, ops) sim.
 
+(** * Commit *)
+
+(** the Cache calls of a commit.  [VEvict] / [VBind]: the call was accepted by
+    the cluster; [VEvictFailed] / [VBindFailed]: the call returned an error (it did
+    not reach the cluster); [VPipe]: TaskPipelined (no error return). *)
 Inductive vcall :=
 | VEvict (t : positive) (a : vaction) (preemptor : positive)
-| VPipe (t n : positive) (gs : list positive).
+| VPipe (t n : positive) (gs : list positive)
+| VEvictFailed (t : positive) (a : vaction) (preemptor : positive)
+| VBind (t n : positive) (gs : list positive)
+| VBindFailed (t n : positive) (gs : list positive).
 
-(** Statement.Commit: one Cache call per valid operation, in order *)
+(** failure oracle of one Commit: does the k-th Cache.Evict / the k-th Cache.Bind
+    call of this commit return an error (k counted from 0, per kind) *)
+Record faults := mkF { f_evict : nat -> bool; f_bind : nat -> bool }.
+Definition no_faults : faults := mkF (fun _ => false) (fun _ => false).
+
+(** commitEvict's error path: Statement.unevict(reclaimee, previousStatus,
+    evictOp.previousNode, previousGpuGroups, ...) where previousStatus and
+    previousGpuGroups are read from the pod BY commitEvict, just before the Cache
+    call - that is, they are the status and groups the statement gave the pod
+    (Releasing, or Pipelined on its new node when the statement re-placed it),
+    not the ones the evict operation recorded.  So in the session the pod keeps
+    its status, groups and node name; the previous node's copy of the pod is
+    replaced by the pod as it is now (UpdateTask, or AddTask when missing), and
+    the plugins' allocate handlers run (not modelled). *)
+Definition unevict_state (s : sstate) (t : positive) (pn : positive) : sstate :=
+  match get_task (ss_tasks s) t with
+  | Some tk => mkSS (ss_jobs s) (ss_tasks s) (entry_set (ss_entries s) t pn (vt_groups tk))
+  | None => s
+  end.
+(** commitAllocate's error path: cleanupFailedAllocation = unallocate: Pending, off the node *)
+Definition unallocate_state (s : sstate) (t n : positive) : sstate :=
+  mkSS (ss_jobs s) (upd_first t set_unallocated (ss_tasks s)) (entry_del (ss_entries s) t n).
+(** Session.BindPod after an accepted Bind: Binding *)
+Definition bound_state (s : sstate) (t : positive) : sstate :=
+  with_tasks s (upd_first t (set_status Binding) (ss_tasks s)).
+
+(** Statement.Commit, operation by operation ([ke] / [kb]: Evict / Bind calls issued so far):
+    - invalid (undone) operations are skipped;
+    - evict: commitEvict; when Cache.Evict fails the error is logged, Statement.unevict
+      is called ([unevict_state]: the pod's status does not change) and THE LOOP
+      CONTINUES with the next operation
+      ([carry_on = true], the code as it is; [carry_on = false] is the variant
+      that clears the operations and returns at the first refused eviction);
+    - pipeline: Cache.TaskPipelined (cannot fail);
+    - allocate: commitAllocate; when Cache.Bind fails: cleanupFailedAllocation,
+      clearOperations, return - the remaining operations are dropped (and stay as
+      they are in the session).
+    Returns the calls and the session after the commit.
+    Left out: commitEvict's "pod group not found" error (an evict operation only
+    exists for a pod whose job is in the session, and jobs do not disappear during a cycle). *)
+Fixpoint commit_run (carry_on : bool) (f : faults) (a : vaction) (pre : positive) (ke kb : nat)
+         (s : sstate) (ops : list sop) : list vcall * sstate :=
+  match ops with
+  | [] => ([], s)
+  | SEvict t prev pg pn true :: r =>
+      if f_evict f ke then
+        let s1 := unevict_state s t pn in
+        if carry_on then
+          let '(cs, s2) := commit_run carry_on f a pre (S ke) kb s1 r in (VEvictFailed t a pre :: cs, s2)
+        else ([VEvictFailed t a pre], s1)
+      else
+        let '(cs, s2) := commit_run carry_on f a pre (S ke) kb s r in (VEvict t a pre :: cs, s2)
+  | SEvict _ _ _ _ false :: r => commit_run carry_on f a pre ke kb s r
+  | SPipe t n gs :: r =>
+      let '(cs, s2) := commit_run carry_on f a pre ke kb s r in (VPipe t n gs :: cs, s2)
+  | SAlloc t n gs :: r =>
+      if f_bind f kb then ([VBindFailed t n gs], unallocate_state s t n)
+      else
+        let '(cs, s2) := commit_run carry_on f a pre ke (S kb) (bound_state s t) r in (VBind t n gs :: cs, s2)
+  end.
+
+(** the calls of a commit in which every call is accepted *)
 Definition commit_ops (a : vaction) (pre : positive) (ops : list sop) : list vcall :=
   flat_map (fun o => match o with
-                     | SEvict t _ _ true => [VEvict t a pre]
-                     | SEvict _ _ _ false => []
+                     | SEvict t _ _ _ true => [VEvict t a pre]
+                     | SEvict _ _ _ _ false => []
                      | SPipe t n gs => [VPipe t n gs]
+                     | SAlloc t n gs => [VBind t n gs]
                      end) ops.
 
 (** * One scenario of the by-pod solver *)
@@ -576,15 +681,16 @@ Inductive sresult :=
 | Discarded
 | NoVerdict.            (* the real code hangs or panics *)
 
-Definition run_scenario (env : venv) (a : vaction) (s : sstate) (pre : positive) (sc : scenario)
-           (sim : list (positive * positive * list positive)) : sresult :=
+(** [stale = []]: Statement.Evict as it is (guard of bce7109); [carry_on]: Commit as it is; [f]: the failure oracle of the commit *)
+Definition run_scenario_gen (stale : list positive) (carry_on : bool) (f : faults) (env : venv) (a : vaction) (s : sstate) (pre : positive)
+           (sc : scenario) (sim : list (positive * positive * list positive)) : sresult :=
   match find_job (ss_jobs s) pre with
   | None => Discarded
   | Some pj =>
       if negb (forallb (fun t => mem_pos t (sc_victims sc)) (sc_chosen sc)) then Discarded else
       match filter_all env s a (sc_seen sc) pj (sc_victims sc) with
       | V true =>
-          match evict_all s [] (sc_evicted sc) with
+          match evict_all_gen stale s [] (sc_evicted sc) with
           | None => Discarded
           | Some (s1, ops1) =>
               match pipeline_all s1 ops1 sim with
@@ -592,7 +698,9 @@ Definition run_scenario (env : venv) (a : vaction) (s : sstate) (pre : positive)
               | Some (s2, ops2) =>
                   match validate env s2 a pj sc with
                   | V true =>
-                      if job_solved s s2 pj then Committed (commit_ops a pre ops2) s2 else Discarded
+                      if job_solved s s2 pj then
+                        let '(calls, s3) := commit_run carry_on f a pre 0 0 s2 ops2 in Committed calls s3
+                      else Discarded
                   | V false => Discarded
                   | _ => NoVerdict
                   end
@@ -603,20 +711,26 @@ Definition run_scenario (env : venv) (a : vaction) (s : sstate) (pre : positive)
       end
   end.
 
+(** the code as it is, for any failure oracle; and without failures *)
+Definition run_scenario_f (f : faults) := run_scenario_gen [] true f.
+Definition run_scenario := run_scenario_f no_faults.
+
 (** * An action: any sequence of scenarios (the order is an oracle) *)
 
 Record step := mkStep {
   sp_action : vaction; sp_preemptor : positive; sp_scenario : scenario;
   sp_sim : list (positive * positive * list positive);
+  sp_faults : faults;              (* which Cache calls of this statement's commit fail *)
 }.
 
-(** commits accumulate; a discarded statement leaves the session as it was;
-    [None]: the real code hangs or panics *)
+(** commits accumulate (the session continues from the state the commit left,
+    un-evictions of refused evictions included); a discarded statement leaves the
+    session as it was; [None]: the real code hangs or panics *)
 Fixpoint run_steps (env : venv) (s : sstate) (steps : list step) : option (list (step * list vcall) * sstate) :=
   match steps with
   | [] => Some ([], s)
   | st :: r =>
-      match run_scenario env (sp_action st) s (sp_preemptor st) (sp_scenario st) (sp_sim st) with
+      match run_scenario_f (sp_faults st) env (sp_action st) s (sp_preemptor st) (sp_scenario st) (sp_sim st) with
       | Committed calls s' =>
           match run_steps env s' r with
           | Some (cs, sf) => Some ((st, calls) :: cs, sf)
